@@ -189,7 +189,7 @@ theorem header_leaf_spec (name : Str) (inv : Bool) (md : MD) :
         ∧ (∀ lo hi, HdrM.matches ⟨name, .range lo hi, inv⟩ md = true ↔
             ((∃ i, parseInt64 v = some i ∧ lo ≤ i ∧ i < hi) ↔ inv = false)))
     ∧ (∀ b, HdrM.matches ⟨name, .present b, inv⟩ md = true ↔
-        ((∃ v, valueFromMD md name = some v ∧ v ≠ []) ↔ (b != inv) = true)) := by
+        ((∃ v, valueFromMD md name = some v) ↔ (b != inv) = true)) := by
   refine ⟨fun spec hs hv => ?_, fun v hv => ⟨fun s => ?_, fun s => ?_, fun s => ?_, fun s => ?_, fun lo hi => ?_⟩, fun b => ?_⟩
   · cases spec <;> simp_all [HdrM.matches]
   · simp only [HdrM.matches, hv]
